@@ -270,6 +270,13 @@ class System:
                 json.dumps(norm_meta(r.meta), sort_keys=True))
 
     def observe(self, h):
+        # "touch": checkpoint the recording to disk between operations, the way a user saves
+        # intermediate results (state computed lazily at save time must not go stale); states are
+        # still merged on canon only
+        try:
+            h.rec.save(os.path.join(self.tmpdir, "touch.json"))
+        except Exception:       # noqa: BLE001 - judged by the invariant's own save/load
+            pass
         return None
 
     # ---- invariant --------------------------------------------------------
@@ -633,7 +640,7 @@ def run_root(root, ctx, tier):
     try:
         sysm = System(root, tmpdir=tmp)
         seen = explorer.bfs(sysm, root, root["depth"], ctx, key_prefix="C18",
-                            check_determinism=(tier == "thorough"))
+                            check_determinism=(tier == "thorough"), touch=True)
         ctx.nontrivial_case((root["L"], root["dt"], root["deg"], root.get("prefix", [])))
         ctx.notes["max_history_length"] = max(ctx.notes.get("max_history_length", 0),
                                               len(root.get("prefix", [])) + root["depth"])
